@@ -63,6 +63,7 @@ type KnownFile struct {
 }
 
 var verifRoot = "/verif"
+var pinnedVector map[string]uint64
 
 func main() {
 	if len(os.Args) < 2 {
@@ -242,6 +243,8 @@ func runJob(l *loaded, h *HarnessSpec, params []int, tier string, known map[stri
 	e := &Engine{prog: l.prog, ts: ts, sol: sol, maxFork: 64, maxUnwind: 64, maxSteps: 2000000, maxPaths: 200000,
 		redirects: map[string]*ssa.Function{}, initPkgs: map[string]bool{}, known: known, trace: trace,
 		fnsSeen: map[string]bool{}, modelsUsed: map[string]bool{}, harnessPkg: spkg, noIfConv: os.Getenv("VERIF_NO_IFCONV") != "", ifSites: map[siteKey]*siteStat{}}
+	e.pinned = pinnedVector
+	e.pinPartial = os.Getenv("VERIF_PIN_PARTIAL") != ""
 	e.opaqueErrT = types.NewPointer(types.NewNamed(types.NewTypeName(0, nil, "opaqueError", nil), types.NewStruct(nil, nil), nil))
 	if h.Unwind > 0 {
 		e.maxUnwind = h.Unwind
@@ -308,6 +311,7 @@ func cmdRun(args []string) int {
 	trace := fs.Bool("trace", false, "trace instructions")
 	evidenceOut := fs.String("evidence", "", "evidence file (default <root>/evidence/<ID>.json)")
 	cpuprof := fs.String("cpuprofile", "", "write CPU profile")
+	pin := fs.String("pin", "", "JSON file {\"params\":[..],\"vector\":{..}}: run the selected harness once with all nondets pinned and print the trace")
 	if len(args) < 1 {
 		fmt.Fprintln(os.Stderr, "usage: vcheck run <ID> ...")
 		return 3
@@ -414,6 +418,35 @@ func cmdRun(args []string) int {
 	}
 	if len(jobs) == 0 {
 		return fail("no harness selected")
+	}
+	if *pin != "" {
+		var pv struct {
+			Params []int             `json:"params"`
+			Vector map[string]uint64 `json:"vector"`
+		}
+		pd, err := os.ReadFile(*pin)
+		if err != nil {
+			return fail(err.Error())
+		}
+		if err := json.Unmarshal(pd, &pv); err != nil {
+			return fail(err.Error())
+		}
+		pinnedVector = pv.Vector
+		j := runJob(l, jobs[0].h, pv.Params, *tier, known, workdir, *trace, -1)
+		fmt.Println("status:", j.res.PathStatus, "err:", j.err)
+		for _, s := range j.res.Samples {
+			vb, _ := json.Marshal(s.Vector)
+			fmt.Println("obs:", s.Obs, "covers:", s.Covers, "vector:", string(vb))
+		}
+		for k, o := range j.res.Obl {
+			if o.Sat > 0 {
+				fmt.Println("failed obligation:", k)
+			}
+		}
+		for k, v := range j.res.Unsupported {
+			fmt.Println("unsupported:", k, v)
+		}
+		return 0
 	}
 	var wg sync.WaitGroup
 	ch := make(chan int)
